@@ -139,4 +139,43 @@ PROPS = {
         level_note='Trusted: Lean kernel; bufio.Reader.Peek returns the same prefix whatever the fragmentation (exercised by the fragmentation campaign).',
         engine="codec-harness",
     ),
+    "C13": dict(
+        lean_modules=["Swim.Model.Ingest", "Swim.Props.C13"],
+        tests="^TestC13$",
+        shards_quick=4,
+        rule=("(pkt) random framing trees on the plaintext packet path (compound nesting to depth 4, user / unsupported / undecodable leaves, "
+              "checksum header right or wrong, label header own / foreign / malformed, then truncation or bit flip), delivered user payloads compared "
+              "with the model's leaf list; (mut) every truncation and three bit patterns per byte of genuine ping/ack/suspect/dead/alive/user/compound "
+              "packets under random label/encryption/compression, inputs whose leaf no longer decodes (or whose ciphertext is altered) must be inert; "
+              "(str) every cut point plus 60 bit flips of genuine user / push-pull / ping streams through handleConn with random fragmentation, "
+              "goroutine and connection accounting; (caps) declared sizes beyond every documented cap incl. 2^31, 2^32+k, negative, and a flooded "
+              "handoff queue; non-trivial = a campaign of at least 50 inputs or a tree delivering 2+ messages"),
+        trusted_base=COMMON_TB + ["go-msgpack and compress/lzw decoders return errors instead of panicking (exercised by the mutation campaign, not proved)",
+                                  "hash/crc32 (re-implemented in the driver for the comparison)", "runtime.MemStats.TotalAlloc as the measure of buffering"],
+        assumptions=["AEAD is abstract in the model: any function may stand for crypto/cipher's Open"],
+        level_text=("Proof (partial): no-panic of the whole packet path (label removal, gate, decryptPayload with PKCS7, checksum, command dispatch with "
+                    "arbitrary compound nesting) for every byte string and configuration, with Go's slice/index panics modelled explicitly; termination of "
+                    "compound recursion; drops have no effect (Lean). Tied by a byte-exact framing correspondence and mutation / cut-point / cap campaigns "
+                    "on the real code."),
+        level_note=("Partial: panics inside go-msgpack/lzw, hangs, goroutine or connection leaks and the cap checks on the stream path are observed by the "
+                    "harness (every cut point, oversize declarations), not proved; nesting of compressMsg layers is bounded only by the decompression cap."),
+        engine="codec-harness",
+    ),
+    "C14": dict(
+        lean_modules=["Swim.Model.Ingest", "Swim.Props.C13", "Swim.Props.C14"],
+        tests="^TestC14$",
+        shards_quick=6,
+        rule=("genuine user messages sealed under the receiver's primary or secondary key, a foreign key, a removed key, another label (re-headed), or "
+              "not sealed at all, encryption version 0 and 1, packet and stream path; for each: every bit of the version byte, every bit of nonce, tag, "
+              "label header and stream prefix, every bit (short) or one bit per byte (long) of the body, every truncation, extensions; the receiver's "
+              "delegate, membership and replies are observed after each input; non-trivial = at least 100 mutations of one ciphertext"),
+        trusted_base=COMMON_TB + ["AES-GCM ciphertext integrity (the hypothesis `Integrity` of C14_accept_genuine), sampled by the mutation campaign"],
+        assumptions=["GossipVerifyIncoming is on", "keys not known to the adversary"],
+        level_text=("Proof (partial): decryptPayload returns a plaintext only if an installed key opens the carried nonce/body under the receiver's own "
+                    "associated data; under the AEAD integrity hypothesis this is a genuine sealing; plaintext exact when the version byte is unchanged; "
+                    "rejection when no installed key opens (Lean, symbolic AEAD). Tied by a bit-level mutation campaign on real ciphertexts."),
+        level_note=("Known finding C14-version-byte: the version byte is outside the authenticated data (witness theorem C14_version_flip_witness, "
+                    "reproduced on the real code by every run). AES-GCM integrity is assumed, not proved."),
+        engine="codec-harness",
+    ),
 }
